@@ -138,6 +138,31 @@ Proof.
   apply rule_like_rp. eapply tau_star_rule_like_all; eauto.
 Qed.
 
+(* ... and with the empty completed definitions of the missing output predicates
+   (/repo <COMMIT-F17>): they ARE completed definitions (complete_definition of an empty entry) *)
+Lemma empty_definition_classified q : classified (empty_definition q).
+Proof. left. unfold empty_definition. rewrite complete_definition_head. eauto. Qed.
+Lemma empty_definition_def_shape q : def_shape (psym q) (parity q) (empty_definition q).
+Proof.
+  unfold empty_definition.
+  pose proof (complete_definition_def_shape (atomic_formula_from q, [])) as H. cbn [fst] in H.
+  pose proof (atomic_formula_from_pred q) as E. unfold hatom_pred in E.
+  rewrite <- E at 1 2. exact H.
+Qed.
+Lemma missing_outputs_classified outs D f : In f (missing_output_definitions outs D) -> classified f.
+Proof.
+  unfold missing_output_definitions. intros Hf. apply in_map_iff in Hf. destruct Hf as [q [<- _]].
+  apply empty_definition_classified.
+Qed.
+Theorem translated_classified_ext P G m ins outs D :
+  TauStar.tau_star P = Some G -> completion (rp_theory m G) ins = Some D ->
+  forall d, In d (D ++ missing_output_definitions outs D) -> classified d.
+Proof.
+  intros HG HD d Hd. apply in_app_or in Hd. destruct Hd as [Hd|Hd].
+  - eapply translated_classified; eauto.
+  - eapply missing_outputs_classified; eauto.
+Qed.
+
 (* ------------------------------------------------------------------ the runner of Model/ExternalFull.v *)
 Lemma FULL_eq : FULL = FULL_CLASSIC_total.
 Proof. reflexivity. Qed.
